@@ -947,7 +947,6 @@ def _fold_stable_aliases(fn):
         return False
 
     folds: Dict[str, ast.AST] = {}
-
     def scan(stmts):
         keep = []
         for st in stmts:
@@ -970,6 +969,7 @@ def _fold_stable_aliases(fn):
                     elif is_const(v) and not isinstance(v, (ast.Constant, ast.Name)):
                         folds[t] = v
                         continue
+
                     elif isinstance(v, ast.Call) and isinstance(v.func, ast.Name) and v.func.id == "isinstance" and len(v.args) == 2 and isinstance(v.args[0], ast.Name) \
                             and binds.get(v.args[0].id, 0) <= 1 and "__" in t:
                         # a flag produced by inlining (`is_x__h1 = isinstance(obj, T)`): its uses test the same thing
